@@ -212,10 +212,33 @@ fn extra_case(idx: usize, s: &str, cfg: SerCfg) -> Option<(String, Result<String
         i if i == 4 * nk + 13 => ("top-level string".into(), ser_root(&s.to_string(), cfg, "r")),
         i if i == 4 * nk + 14 => ("top-level Vec<String> with root".into(), ser_root(&vec![s.to_string(), s.to_string()], cfg, "r")),
         i if i == 4 * nk + 15 => ("top-level char list".into(), ser_root(&s.chars().collect::<Vec<char>>(), cfg, "r")),
+        i if i == 4 * nk + 16 => {
+            let mut m: BTreeMap<u8, String> = BTreeMap::new();
+            m.insert(1, s.to_string());
+            ("map with integer keys".into(), ser_root(&m, cfg, "m"))
+        }
+        i if i == 4 * nk + 17 => {
+            let mut m: BTreeMap<bool, String> = BTreeMap::new();
+            m.insert(true, s.to_string());
+            ("map with boolean keys".into(), ser_root(&m, cfg, "m"))
+        }
+        i if i == 4 * nk + 18 => {
+            let mut m: BTreeMap<char, String> = BTreeMap::new();
+            for c in s.chars().chain(['k']) {
+                m.insert(c, s.to_string());
+            }
+            ("map with char keys taken from the payload".into(), ser_root(&m, cfg, "m"))
+        }
+        i if i == 4 * nk + 19 => {
+            let mut m: BTreeMap<String, Vec<String>> = BTreeMap::new();
+            m.insert("k".into(), vec![s.to_string(), String::new(), s.to_string()]);
+            m.insert("@a".into(), vec![s.to_string(), s.to_string()]);
+            ("map with list values (element list and attribute list)".into(), ser_root(&m, cfg, "m"))
+        }
         _ => return None,
     })
 }
-const N_EXTRA: usize = 4 * 18 + 16;
+const N_EXTRA: usize = 4 * 18 + 20;
 
 fn ser_root<T: Serialize>(v: &T, cfg: SerCfg, root: &str) -> Result<String, String> {
     guarded_mut(|| -> Result<String, String> {
